@@ -149,8 +149,14 @@ where
             let op = e.get("op").and_then(|v| v.as_str()).unwrap_or("").to_string();
             let kind = if op == "load" { 0 } else if BINOPS.contains(&op.as_str()) { 1 } else if INTOPS.contains(&op.as_str()) { 2 }
                 else if op == "shl" || op == "shr" { 3 } else if UNOPS.contains(&op.as_str()) { 4 } else if op == "sum" || op == "product" { 5 } else { 6 };
-            (kind, op, (g("d") - 1) as usize, (g("a") - 1).max(0) as usize, (g("b") - 1).max(0) as usize, g("fm") as u64,
-             (g("v") as i128) as u128, g("nt") as usize)
+            // TLC-generated steps carry the operand as "v" (load) or "n" (integer operand / shift amount),
+            // Sum/Product as a register list "as"
+            let num = if e.get("v").is_some() { g("v") } else { g("n") };
+            let (a0, b0) = if let Some(list) = e.get("as").and_then(|v| v.as_array()) {
+                (list.get(0).and_then(|v| v.as_i64()).unwrap_or(1), list.get(1).and_then(|v| v.as_i64()).unwrap_or(1))
+            } else { (g("a"), g("b")) };
+            (kind, op, (g("d") - 1) as usize, (a0 - 1).max(0) as usize, (b0 - 1).max(0) as usize, g("fm") as u64,
+             (num as i128) as u128, g("nt") as usize)
         } else {
             let kind = if step < 3 { 0 } else { [1u64, 1, 1, 1, 2, 3, 4, 4, 5, 6, 0][rng.below(11) as usize] };
             let op = match kind {
@@ -217,6 +223,7 @@ where
             }
             3 => {
                 let x = reg[a];
+                let nt = if script.is_some() { 2 } else { nt };           // scripted amounts are i32
                 let (tn, ts, tw) = SHIFT_TY[nt];
                 // in the int-domain trace the amount must stay small
                 let amt_raw = if c.wr.big { numraw & mask(tw) } else { (numraw & mask(tw.min(16))) };
@@ -259,8 +266,10 @@ where
             }
             5 => {
                 // Sum / Product over a list of registers, by value or by reference
-                let k = if script.is_some() { (numraw as usize % 5).max(0) } else { rng.below(5) as usize };
-                let idx: Vec<usize> = (0..k).map(|i| (a + i * (b + 1)) % 4).collect();
+                let idx: Vec<usize> = if script.is_some() { vec![a, b] } else {
+                    let k = rng.below(5) as usize;
+                    (0..k).map(|i| (a + i * (b + 1)) % 4).collect()
+                };
                 let items: Vec<W<F>> = idx.iter().map(|&i| reg[i]).collect();
                 let r = do_fold::<F>(op, form, &items);
                 if let Ok(v) = r { reg[d] = v; }
